@@ -13,8 +13,8 @@ INVS = ["PathsPairwiseDistinct", "ComponentCharset", "ChannelConservation", "Pai
 # AKAI alphabet: 0-9 A-Z space # + - .   (no trailing blanks: the parser strips the padding)
 AKAI_POOL = ["A", "A L", "A-L", "A R", "A-R", "A  L", "A  R", "A -L", "A.", "A L.", "-L", "-R", "A+L", "L", "A 2 L", ".A"]
 # ASCII names (Roland directory names, cue TITLEs): separators, dots, quotes, control characters, generated-looking names
-ASCII_POOL = ["A", "A L", "A-L", "A R", "A-R", "A  L", "A (2)", "A (2) L", "a/b", "..", "../X", "'A'", ":A", "A:", " ",
-              "A\\B", "A\x0cL", "A_L", "A.", "`", "A\tL", "A+", "l", "A - L", "A - R"]
+ASCII_POOL = ["A", "A L", "A-L", "A R", "A-R", "A  L", "A (2)", "A (2) L", "/", "a/b", "..", "../X", "'A'", ":A", "A:", " ", "*\\*",
+              "A\\B", "A\x0cL", "A_L", "A.", "`", "A\tL", "A+", "l", "A - L", "A - R", "?/?"]
 CUE_POOL = [n for n in ASCII_POOL if '"' not in n and "\t" not in n]
 
 
@@ -48,13 +48,13 @@ def akai_files_case(names: List[str], lens: List[int] = None) -> Dict[str, Any]:
                        "sys": 0, "sat": sat}], "expected": []}
 
 
-def akai_dirs_case(names: List[str]) -> Dict[str, Any]:
-    """one partition, one volume per name, each holding one sample 'S<k>'"""
+def akai_dirs_case(names: List[str], same_child: bool = False) -> Dict[str, Any]:
+    """one partition, one volume per name, each holding one sample 'S<k>' (or 'S0' in every volume)"""
     vols, sat = [], []
     sec = 4
     for k, n in enumerate(names):
         vols.append({"name": n, "vtype": 1, "dir": [sec], "dirstyle": "chain", "blanks": 0,
-                     "files": [{"name": f"S{k}", "stem": "", "ftype": 243, "chain": [sec + 1], "cnt": 50 + k, "ps": 0, "pe": 50 + k,
+                     "files": [{"name": "S0" if same_child else f"S{k}", "stem": "", "ftype": 243, "chain": [sec + 1], "cnt": 50 + k, "ps": 0, "pe": 50 + k,
                                 "rate": 44100, "pair": ""}]})
         sat += [[sec, 49152], [sec + 1, 49152]]
         sec += 2
@@ -76,17 +76,17 @@ def roland_files_case(names: List[str], lens: List[int] = None) -> Dict[str, Any
     return {"C": 9216, "nclusters": 3 + len(names), "img": img, "fat": fat, "expected": []}
 
 
-def roland_dirs_case(names: List[str], level: str) -> Dict[str, Any]:
+def roland_dirs_case(names: List[str], level: str, same_child: bool = False) -> Dict[str, Any]:
     """level 'volume': one volume per name, each with its own performance P<k>; level 'performance': one volume, one
     performance per name; every performance has its own patch/partial/sample"""
     n = len(names)
-    samples = [{"name": f"Smp{k}", "chain": [2 + k], "ctop": 0, "mode": 2, "freq": 1, "pts": [0, 0, 40 + k, 0, 40 + k], "key": 60}
+    samples = [{"name": "Smp" if same_child else f"Smp{k}", "chain": [2 + k], "ctop": 0, "mode": 2, "freq": 1, "pts": [0, 0, 40 + k, 0, 40 + k], "key": 60}
                for k in range(n)]
     fat = [[2 + k, 65528] for k in range(n)]
     partials = [{"name": f"Pt{k}", "refs": [k]} for k in range(n)]
     patches = [{"name": f"Qq_patch{k}", "partials": [k]} for k in range(n)]
     if level == "volume":
-        perfs = [{"name": f"P{k}", "patches": [k]} for k in range(n)]
+        perfs = [{"name": "P" if same_child else f"P{k}", "patches": [k]} for k in range(n)]
         vols = [{"name": names[k], "perfs": [k]} for k in range(n)]
     else:
         perfs = [{"name": names[k], "patches": [k]} for k in range(n)]
